@@ -407,3 +407,104 @@ pub fn run_goaway(sim: &Sim, _idx: u64) {
         v14(sim, "run-hangs", "the scenario did not finish within the virtual horizon".into());
     }
 }
+
+/// A *balanced* channel (tower p2c `Balance` over lazily connected endpoints — what
+/// `Channel::balance_list` / `balance_channel` build; hook H4 supplies the simulated connector)
+/// under a script of failing and succeeding connection attempts and dying connections. Several
+/// endpoints may attempt to connect while one call waits, so failures are not attributed one-to-one;
+/// the relaxed oracle: every call completes (no hang), with a response or an UNAVAILABLE error;
+/// never more failed calls than failed attempts; and once attempts succeed again, the channel
+/// recovers after at most as many further calls as there were failed attempts.
+pub fn run_balanced(sim: &Sim, _idx: u64) {
+    // One endpoint only: with two or more, tower's p2c picks among the ready endpoints with a
+    // random generator seeded from OS entropy — a source of nondeterminism neither tonic nor the
+    // simulator owns (runs would not replay). With one endpoint the choice is forced and the
+    // whole Balance -> Connection -> Reconnect path is still the one `balance_channel` builds.
+    let k = 1usize;
+    let nsteps = sim.range(0, 6) as usize;
+    use std::io::ErrorKind as K;
+    let script: Vec<ConnectStep> = (0..nsteps).map(|_| if sim.chance(2, 3) { ConnectStep::Fail(sim.pick(&[K::ConnectionRefused, K::TimedOut, K::Other])) } else { ConnectStep::Ok { delay_us: sim.pick(&[0u64, 500, 20_000]) } }).collect();
+    let rounds = sim.range(2, 6) as usize;
+    let kill_after: Option<usize> = if sim.chance(1, 3) { Some(sim.range(0, rounds as u64 - 1) as usize) } else { None };
+    let netcfg = if sim.chance(1, 2) { NetCfg::ideal() } else { NetCfg { stall_pct: 0, ..NetCfg::draw(sim) } };
+    sim.nontrivial();
+    sim.sample(|| format!("balanced channel over {k} endpoints; connect script {script:?} then reachable; {rounds} rounds; kill all connections after round {kill_after:?}"));
+    sim.ev(|| format!("config: k={k} script={script:?} rounds={rounds} kill_after={kill_after:?}"));
+    let out = run_sim(sim, Duration::from_secs(100_000), || async {
+        let (net, connector, rx) = net_and_connector(sim, netcfg, script.clone());
+        let handler = Handler::new(sim);
+        for i in 0..256u64 {
+            handler.add_script(i, Script { msgs: vec![b"pong".to_vec()], ..Default::default() });
+        }
+        let _srv = spawn_server::<std::future::Pending<()>>(&handler, &no_comp(), &ServerOpts::default(), rx, None);
+        let (ch, tx) = tonic::transport::verif_hooks::balance_channel_with_connector::<usize, _>(16, connector.clone());
+        const HOSTS: [&str; 3] = ["http://sim-a.test:50051", "http://sim-b.test:50051", "http://sim-c.test:50051"];
+        for (i, h) in HOSTS.iter().enumerate().take(k) {
+            let _ = tx.send(tonic::transport::channel::Change::Insert(i, tonic::transport::Endpoint::from_static(h))).await;
+        }
+        let mut id = 0u64;
+        let mut failed_calls = 0usize;
+        let failed_attempts = |c: &simnet::SimConnector| c.attempts.lock().unwrap().iter().filter(|a| matches!(a.step, ConnectStep::Fail(_))).count();
+        for round in 0..rounds {
+            tokio::time::sleep(Duration::from_secs(1)).await;
+            id += 1;
+            let attempts_before = connector.n_attempts();
+            let r = one_call(&ch, id).await;
+            // with a single endpoint a call triggers at most one connection attempt, whose failure
+            // is that call's outcome (it does not keep reconnecting on the caller's time)
+            if connector.n_attempts() > attempts_before + 1 {
+                return v14(sim, "connect-attempt-count", format!("balanced channel, round {round}: one call caused {} connection attempts (outcome {:?})", connector.n_attempts() - attempts_before, r.as_ref().map(|x| x.as_ref().map(|_| ()).map_err(|e| e.0))));
+            }
+            match r {
+                None => return v14(sim, "call-hangs", format!("balanced channel, round {round}: the call did not complete within 120 virtual seconds ({} connection attempts so far, {} failed)", connector.n_attempts(), failed_attempts(&connector))),
+                Some(Ok(m)) => {
+                    if m != b"pong" {
+                        v14(sim, "wrong-response", format!("balanced channel: {m:?}"));
+                    }
+                }
+                Some(Err((c, m))) => {
+                    failed_calls += 1;
+                    if c != Code::Unavailable {
+                        v14(sim, "connect-failure-not-unavailable", format!("balanced channel, round {round}: {c:?} {m:?}"));
+                    }
+                }
+            }
+            if failed_calls > failed_attempts(&connector) {
+                return v14(sim, "connect-failure-replayed", format!("balanced channel: {failed_calls} calls have failed but only {} connection attempts did", failed_attempts(&connector)));
+            }
+            if kill_after == Some(round) {
+                for cid in 0..net.n_conns() {
+                    net.kill(cid, sim.pick(&[KillKind::Eof, KillKind::Reset]));
+                }
+                sim.probe("balanced-connections-killed");
+            }
+        }
+        // recovery: the script is finite; from now on attempts succeed
+        connector.script.lock().unwrap().clear();
+        let budget = failed_attempts(&connector) + k + 2;
+        let mut last_ok = false;
+        for _ in 0..budget {
+            tokio::time::sleep(Duration::from_secs(1)).await;
+            id += 1;
+            match one_call(&ch, id).await {
+                None => return v14(sim, "call-hangs", "balanced channel: a call during recovery did not complete within 120 virtual seconds".into()),
+                Some(Ok(_)) => last_ok = true,
+                Some(Err(_)) => {
+                    last_ok = false;
+                    failed_calls += 1;
+                }
+            }
+            if failed_calls > failed_attempts(&connector) {
+                return v14(sim, "connect-failure-replayed", format!("balanced channel: {failed_calls} calls have failed but only {} connection attempts did", failed_attempts(&connector)));
+            }
+        }
+        if last_ok {
+            sim.probe("balanced-channel-recovered");
+        } else {
+            v14(sim, "call-fails-although-endpoint-reachable", format!("balanced channel: every endpoint has been reachable for {budget} calls at quiescent points, the last one still failed"));
+        }
+    });
+    if out.is_none() {
+        v14(sim, "run-hangs", "the scenario did not finish within the virtual horizon".into());
+    }
+}
